@@ -5,20 +5,21 @@ TEXT = {
  'C02': ('net payout per (account, denomination) of every accepted match equals the specification of the statement; remaining amounts fall by exactly those quantities', '7 C02'),
  'C03': ('an accepted match satisfies the eligibility conjunction and the limit prices; an eligible executor request is never refused (converse decided as unsatisfiability of refusal paths under the legality predicate)', '7 C03'),
  'C04': ('payouts of cancel/expire/reject equal the cancelled part and go to the depositor only; remainders shrink by what was returned; partial sizes are positive lot multiples within the remainder', '7 C04'),
- 'C05': ('on every accepting path of every request kind the sender holds the required role in the pre-state (owner / executor / approver)', '7 C05'),
+ 'C05': ('on every accepting path of every request kind (configuration changes included) the sender holds the required role in the pre-state (owner / executor / approver); and along role histories from the empty store (role lists replaced by accepted configuration changes first) every accepted privileged request was sent by a holder of the role as stored just before it', '7 C05, 11.12'),
  'C06': ('for every open order of an Inv book the owner cancel and the executor expire have no feasible refusing path and return the whole escrow; Inv is re-established by every request kind; and, composed, after any accepted request the exits of every remaining order are decided again from the post-state', '7 C06, 11.6'),
  'C07': ('an order is recorded only if well-formed and exactly funded, the recorded order reproduces the request, and every admissible request is accepted (both directions)', '7 C07'),
  'C08': ('approval only of pending asks by approvers with exact escrow; the Ready clause of Inv (approver amount = remaining size) is re-established by every operation; pending asks never match', '7 C08'),
  'C09': ('bid fee at entry = half-up(rate x total); ask fee on match = half-up(rate x gross); the pro-rata clause of Inv_bid is re-established by every operation on a fee-bearing bid', '7 C09'),
- 'C10': ('every emitted message is a one-coin positive bank send for an unrestricted denomination or a positive marker transfer administered by the contract for a restricted one, with the right source', '7 C10'),
+ 'C10': ('every emitted message is a one-coin positive bank send for an unrestricted denomination or a positive marker transfer administered by the contract for a restricted one, with the right source; on every response of execute, migrate, instantiate', '7 C10, 11.12'),
  'C11': ('write-set of every request is within the keys it names; immutable terms, monotone remainders, internal consistency; neighbours, configuration and version record untouched (books with two asks and two bids)', '7 C11'),
  'C12': ('ModifyContract: rate/attribute freeze per non-empty side, approver superset rule, field-wise installation, immutable market parameters, executor-only', '7 C12'),
  'C13': ('instantiate accepts exactly the coherent messages (both directions), stores the request and the package version; integrality corollary as pure arithmetic obligations', '7 C13'),
  'C14': ('migrate: version gate, asks untouched, exactly the requested overrides, version stamp, second identical migration is a no-op (composed step), supported migrations are carried out', '7 C14'),
  'C15': ('legacy bids (event logs up to the bound, store iterated in every key order) are converted inside the version window with accumulators equal to the event sums and all other fields equal; nothing else is rewritten, lost or invented; thorough tier adds a Kani/CBMC harness on the compiled conversion', '7 C15, 11.6'),
- 'C16': ('queries leave the store unchanged; order queries return exactly the stored entry under that id and fail otherwise; info queries return the stored records', '7 C16'),
- 'C17': ('action and id attributes name the request; reverse_size / order_open / match size, price, ask_fee, bid_fee / recorded price and size equal what the path actually did', '7 C17'),
+ 'C16': ('queries leave the store unchanged; order queries return exactly the stored entry under that id and fail otherwise; info queries return the stored records; no order with zero remaining is ever answered (queries after reached histories)', '7 C16, 11.12'),
+ 'C17': ('action and id attributes name the request; reverse_size / order_open / match size, price, ask_fee, bid_fee / recorded price and size equal what the path actually did, and the reported fees are what the fee accounts were paid', '7 C17, 11.12'),
 }
+REACHED = ('C01', 'C02', 'C03', 'C04', 'C05', 'C06', 'C07', 'C08', 'C09', 'C11', 'C12', 'C16', 'C17')
 checks = []
 for pid in sorted(props):
     what, ref = TEXT[pid]
@@ -33,7 +34,10 @@ for pid in sorted(props):
                           'text': 'Bounded symbolic model checking of the real code: the MIR of the contract (regenerated from /repo on every run) is executed symbolically from an arbitrary pre-state satisfying the representation invariant; %s. Each obligation is an exact z3 query per feasible path: unsat = holds for every value inside the stated bounds, sat = concrete counterexample replayed on the compiled contract before it is reported. One inductive step covers histories of any length.' % what,
                           'design_ref': 'DESIGN.md ' + ref},
         'level_note': 'Trusted: rustc MIR semantics as implemented by mirsym (validated on every run by replaying sampled path witnesses on the compiled contract), the library models of DESIGN.md 3 (rust_decimal, cosmwasm_std, cw-storage-plus, provwasm queriers, uuid, semver), z3 5.1. Bounds: amounts and decimal values < 10^9 (quick) / 10^12 (thorough), <= 3 / 6 fractional digits, fee rates in [0,1], list lengths <= 2-3; behaviour beyond them (96-bit / u128 overflow refusals) is not claimed. Pre-states range over Inv (DESIGN.md 5.1, 11.3); a counterexample is reported only after the compiled contract reproduced it from the seeded pre-state (C01 histories: from the empty store). Exit 2 = inconclusive (solver unknown, unmodelled callee, witness replay disagreeing), never a pass.',
-        'technique': 'SMT-based symbolic execution of the real code: rustc MIR regenerated from /repo on every run is executed symbolically (engine mirsym, z3 5.1; pruning on a linear abstraction, one exact query per obligation per path, cvc5 re-decides a sample), counterexamples and sampled path witnesses replayed on the compiled contract' + ('; Kani/CBMC second opinion on the compiled conversion in the thorough tier' if pid == 'C15' else ''),
+        'technique': 'SMT-based symbolic execution of the real code: rustc MIR regenerated from /repo on every run is executed symbolically (engine mirsym, z3 5.1; pruning on a linear abstraction, one exact query per obligation per path, cvc5 re-decides a sample), counterexamples and sampled path witnesses replayed on the compiled contract'
+                     + ('; the same obligations decided again on states reached from the empty store by bounded symbolic histories (instantiate + accepted requests along templates)' if pid in REACHED else '')
+                     + ('; Kani/CBMC second opinion on the compiled conversion in the thorough tier' if pid == 'C15' else '')
+                     + ('; Kani/CBMC second opinion on the compiled accumulator update in the thorough tier' if pid == 'C11' else ''),
     })
 m = {
  'version': 1,
